@@ -474,6 +474,16 @@ pub fn finish(ctx: &Ctx, mon: &Mon, spec: Spec) -> i32 {
     let mut seen_sig: HashSet<String> = HashSet::new();
     let mut violation_lines = 0;
     let replay_dir = ctx.root.join("replays");
+    if ctx.replay_case.is_none() && ctx.mode.is_none() {
+        // replay files of earlier runs of this property are stale now
+        if let Ok(rd) = std::fs::read_dir(&replay_dir) {
+            for e in rd.flatten() {
+                if e.file_name().to_string_lossy().starts_with(&format!("{}-", ctx.prop)) {
+                    let _ = std::fs::remove_file(e.path());
+                }
+            }
+        }
+    }
     for v in &fresh {
         if !seen_sig.insert(v.signature.clone()) {
             continue;
